@@ -41,6 +41,8 @@ impl TrueStrengthIndex {
 		r is Ok ==> r->Ok_0.ema.value@ == 0real && r->Ok_0.ema.alpha@ * ((self.period3 as real) + 1real) == 2real,
 		r is Ok ==> r->Ok_0.cross_under.last_delta@ == 0real && r->Ok_0.cross_above.last_delta@ == 0real
 			&& r->Ok_0.cross_over1.up.last_delta@ == 0real && r->Ok_0.cross_over2.up.last_delta@ == 0real,
+		// C08: the constant state for the candle's source price (tsi_ind_const_step)
+		r is Ok ==> r->Ok_0.const_state(src_val(candle, self.source)),
 //@replace Ok(Self::Instance { ==> Ok(TrueStrengthIndexInstance {
 //@replace TSI::new(cfg.period2, cfg.period1, &src)? ==> TSI::new3(cfg.period2, cfg.period1, &src)?
 //@end
@@ -101,6 +103,8 @@ impl<M: MovingAverageConstructor> SMIErgodicIndicator<M> {
 		// documented seeds: TSI(short = period2, long = period1) from the source price, the signal average from 0
 		r is Ok ==> tsi_seeded(self.period2, self.period1, src_val(candle, self.source), &r->Ok_0.tsi) && self.signal.seeded(0real, &r->Ok_0.ma),
 		r is Ok ==> r->Ok_0.cross.up.last_delta@ == 0real && r->Ok_0.cross.down.last_delta@ == 0real,
+		// C08: for an averaging kind that cannot overshoot, the constant state for the candle's source price (smi_const_step)
+		r is Ok && self.signal.convex_kind() ==> r->Ok_0.const_state(src_val(candle, self.source)),
 //@replace Ok(Self::Instance { ==> Ok(SMIErgodicIndicatorInstance {
 //@replace TSI::new(cfg.period2, cfg.period1, &src)? ==> TSI::new3(cfg.period2, cfg.period1, &src)?
 //@end
@@ -151,6 +155,8 @@ impl MomentumIndex {
 		!self.valid() ==> r is Err,
 		r is Ok ==> r->Ok_0.inv() && r->Ok_0.cfg == self,
 		r is Ok ==> r->Ok_0.momentum1.window.view().len() == self.period1 && r->Ok_0.momentum2.window.view().len() == self.period2,
+		// C08: the constant state for the candle's source price (momentum_index_const_step)
+		r is Ok ==> r->Ok_0.const_state(src_val(candle, self.source)),
 //@replace Ok(Self::Instance { ==> Ok(MomentumIndexInstance {
 //@end
 }
@@ -171,6 +177,63 @@ impl MomentumIndexInstance {
 //@hint result
 	proof { assert(momentum_index_step(old(self), *src, self, r.vals()[0], r.vals()[1], r.sigs()[0])); }
 //@end
+}
+
+// ---- C08 at indicator level: fed the candle it was initialised with, MomentumIndex returns 0, 0 and no signal, forever
+pub open spec fn all_eq(v: Seq<R>, s: real) -> bool { forall|i: int| 0 <= i < v.len() ==> (#[trigger] v[i])@ == s }
+impl MomentumIndexInstance {
+	pub open spec fn const_state(&self, s: real) -> bool { self.inv() && all_eq(self.momentum1.window.view(), s) && all_eq(self.momentum2.window.view(), s) }
+}
+pub proof fn momentum_index_const_step(pre: &MomentumIndexInstance, src: ValueType, post: &MomentumIndexInstance, v: ValueType, s: ValueType, sig: Action)
+	requires pre.const_state(src@), post.inv(), momentum_index_step(pre, src, post, v, s, sig)
+	ensures v@ == 0real, s@ == 0real, sig is None, post.const_state(src@)
+{
+	let (a, b) = (post.momentum1.window.view(), post.momentum2.window.view());
+	assert forall|i: int| 0 <= i < a.len() implies (#[trigger] a[i])@ == src@ by { if i < a.len() - 1 { assert(a[i] == pre.momentum1.window.view()[i + 1]); } }
+	assert forall|i: int| 0 <= i < b.len() implies (#[trigger] b[i])@ == src@ by { if i < b.len() - 1 { assert(b[i] == pre.momentum2.window.view()[i + 1]); } }
+	assert(pre.momentum1.window.view()[0]@ == src@ && pre.momentum2.window.view()[0]@ == src@);
+}
+
+// ---- C08 at indicator level: TrueStrengthIndex and SMIErgodicIndicator on a repeated candle: TSI 0, signal line 0, no signals
+pub open spec fn tsi_const_state(t: &TSI, s: real) -> bool {
+	t.inv() && t.last_value@ == s && t.ema11.value@ == 0real && t.ema12.value@ == 0real && t.ema21.value@ == 0real && t.ema22.value@ == 0real
+}
+pub proof fn lemma_tsi_const(pre: &TSI, x: ValueType, post: &TSI, out: ValueType)
+	requires tsi_const_state(pre, x@), post.inv(), TSI::step(pre, &x, post, &out)
+	ensures out@ == 0real, tsi_const_state(post, x@)
+{
+	let (a, b) = (pre.ema11.alpha@, pre.ema12.alpha@);
+	let (c, d) = (pre.ema21.alpha@, pre.ema22.alpha@);
+	assert(a * (0real - 0real) == 0real && b * (0real - 0real) == 0real && c * (0real - 0real) == 0real && d * (0real - 0real) == 0real) by(nonlinear_arith);
+}
+impl TrueStrengthIndexInstance {
+	// the detectors' previous differences are 0 right after init and tsi -+ zone afterwards; either way nothing fires while TSI stays 0
+	pub open spec fn const_state(&self, s: real) -> bool {
+		&&& self.inv() && tsi_const_state(&self.tsi, s) && self.ema.value@ == 0real
+		&&& (self.cross_under.last_delta@ == 0real || self.cross_under.last_delta@ == self.cfg.zone@)
+		&&& (self.cross_above.last_delta@ == 0real || self.cross_above.last_delta@ == -self.cfg.zone@)
+		&&& self.cross_over1.up.last_delta@ == 0real && self.cross_over2.up.last_delta@ == 0real && self.cfg.zone@ >= 0real
+	}
+}
+pub proof fn tsi_ind_const_step(pre: &TrueStrengthIndexInstance, src: ValueType, post: &TrueStrengthIndexInstance, tsi: ValueType, sig: ValueType, s1: Action, s2: Action, s3: Action, lo: Action, hi: Action, nz: ValueType, zero: ValueType)
+	requires pre.const_state(src@), post.inv(), post.cfg == pre.cfg, tsi_ind_step(pre, src, post, tsi, sig, s1, s2, s3, lo, hi, nz, zero)
+	ensures tsi@ == 0real, sig@ == 0real, sv(s1) == 0, s2 is None, s3 is None, post.const_state(src@)
+{
+	lemma_tsi_const(&pre.tsi, src, &post.tsi, tsi);
+	assert(pre.ema.alpha@ * (0real - 0real) == 0real) by(nonlinear_arith);
+}
+
+impl<M: MovingAverageConstructor> SMIErgodicIndicatorInstance<M> {
+	pub open spec fn const_state(&self, s: real) -> bool {
+		self.inv() && tsi_const_state(&self.tsi, s) && self.ma.convex() && self.ma.within(0real, 0real) && self.cross.up.last_delta@ == 0real
+	}
+}
+pub proof fn smi_const_step<M: MovingAverageConstructor>(pre: &SMIErgodicIndicatorInstance<M>, src: ValueType, post: &SMIErgodicIndicatorInstance<M>, tsi: ValueType, sig: ValueType, osc: real, s1: Action, c: Action)
+	requires pre.const_state(src@), post.inv(), post.cfg == pre.cfg, smi_step(pre, src, post, tsi, sig, osc, s1, c)
+	ensures tsi@ == 0real, sig@ == 0real, osc == 0real, s1 is None, post.const_state(src@)
+{
+	lemma_tsi_const(&pre.tsi, src, &post.tsi, tsi);
+	<M::Instance as MovingAverage>::lemma_within_step(&pre.ma, &tsi, &post.ma, &sig, 0real, 0real);
 }
 } // verus!
 fn main() {}
